@@ -432,10 +432,18 @@ pub fn run(ctx: &Ctx) -> Report {
     rep.bound("weights", json!("full product of the 7-pair alphabet for <= 3 variables (<=2 in quick), a 13-element rule-defined slice above"));
     rep.sample(json!({"function": "0xf0 (= x2)", "order": [0, 1, 2], "depth": 3, "expected_paths": "x0,x1,x2 on every path"}));
     rep.assumptions.push("integer weights keep f64 arithmetic exact; the counts are compared with ==".into());
+    // wide managers: labels that collide modulo 32 / 64 and straddle 2^5 .. 2^8 (wide.rs)
+    if !disabled("wide") {
+        let w = crate::props::wide::smooth(ctx);
+        rep.merge(w);
+    }
     rep
 }
 
 pub fn replay(_ctx: &Ctx, case: &Value) -> Report {
+    if let Some(r) = crate::props::wide::replay(_ctx, case) {
+        return r;
+    }
     let mut rep = Report::default();
     if case["kind"].as_str() == Some("ffi_wide") {
         rep.merge(crate::props::c18::wide_counts_keyed(case["n"].as_u64().unwrap_or(20) as usize, "smooth:unweighted-count"));
